@@ -53,6 +53,12 @@ def check(model, tier):
     from ..rules import classlevel as _classlevel
 
     _classlevel.r_commutator_messages(ctx, "R20.M1")
+    from ..rules import reqeval as _reqeval20
+
+    _reqeval20.r_common_columns_exact(ctx, "R20.9")  # a join on a column one operand lacks is refused when the common columns are resolved
+    from ..rules import commute as _commute20
+
+    _commute20.r14_17_partial_join_resolved(ctx, "R20.10")
     from ..rules.foundation import run_foundation
 
     run_foundation(ctx, "20")
